@@ -7,4 +7,4 @@ META = {"text": 'Same pipeline on acquire/acquire_timeout/release programs: toke
 
 
 def run(ctx):
-    kernel_sync.run(ctx, "sem", 150, 1500)
+    kernel_sync.run(ctx, "sem", 150, 600)
